@@ -323,6 +323,69 @@ func FirstCalls() []fw.Call {
 	return out
 }
 
+// strictReaders are logs that serve what a proof needs and nothing else: a proof that needs no stored hash
+// (RFC 6962: the audit path in a tree of one record, the consistency proof of a tree with itself) exists
+// for them too.
+type refuseEmpty struct{ tlog.HashReader }
+
+func (x refuseEmpty) ReadHashes(ix []int64) ([]tlog.Hash, error) {
+	if len(ix) == 0 {
+		return nil, fmt.Errorf("empty request")
+	}
+	return x.HashReader.ReadHashes(ix)
+}
+
+type rangeReader struct{ tlog.HashReader }
+
+func (x rangeReader) ReadHashes(ix []int64) ([]tlog.Hash, error) {
+	lo, hi := ix[0], ix[0] // a reader that fetches the range lo..hi in one go
+	for _, i := range ix {
+		lo, hi = min(lo, i), max(hi, i)
+	}
+	_ = hi - lo
+	return x.HashReader.ReadHashes(ix)
+}
+
+type offline struct{}
+
+func (offline) ReadHashes(ix []int64) ([]tlog.Hash, error) { return nil, fmt.Errorf("offline") }
+
+func emptyProofs(r *fw.Run, lg *tlogx.Log, tmax int) {
+	l := fw.NewLocal()
+	defer r.Merge(l)
+	readers := []struct {
+		name string
+		rd   tlog.HashReader
+	}{{"a reader that refuses empty requests", refuseEmpty{lg}}, {"a reader that looks at the first requested index", rangeReader{lg}}, {"an offline reader", offline{}}, {"no reader (nil)", nil}}
+	r.Bounds["empty_proofs"] = fmt.Sprintf("ProveRecord(1,0) and ProveTree(t,t) for t<=%d, through %d readers that cannot serve an empty request", tmax, len(readers))
+	for _, rd := range readers {
+		try := func(what string, t int64, f func() (int, error)) {
+			l.States++
+			l.Execs++
+			l.Transitions++
+			n, err := -1, error(nil)
+			pan := ""
+			func() {
+				defer func() {
+					if e := recover(); e != nil {
+						pan = fmt.Sprint(e)
+					}
+				}()
+				n, err = f()
+			}()
+			if pan != "" || err != nil || n != 0 {
+				r.Violation(fmt.Sprintf("empty-proof:%s:%d:%s", what, t, rd.name), fmt.Sprintf("%s through %s: %d hashes, err=%v, panic=%q; the RFC 6962 proof is empty and needs nothing from the log", what, rd.name, n, err, pan), caseT{Kind: "empty-proof", T: t, Note: what + " / " + rd.name})
+			} else {
+				l.Nontrivial++
+			}
+		}
+		try("ProveRecord(1,0)", 1, func() (int, error) { p, err := tlog.ProveRecord(1, 0, rd.rd); return len(p), err })
+		for t := int64(1); t <= int64(tmax); t++ {
+			try(fmt.Sprintf("ProveTree(%d,%d)", t, t), t, func() (int, error) { p, err := tlog.ProveTree(t, t, rd.rd); return len(p), err })
+		}
+	}
+}
+
 func Run(r *fw.Run) {
 	defer fw.FirstCallOrders(r, r.ID, FirstCalls(), nil)
 	tmax := r.Pick(130, 300)
@@ -350,6 +413,7 @@ func Run(r *fw.Run) {
 		}
 		logs[pat] = lg
 	}
+	emptyProofs(r, logs[0], tmax)
 	// warm the memo single-threaded so the parallel phase only reads it
 	for _, lg := range logs {
 		for t := 1; t <= tmax; t++ {
@@ -726,6 +790,12 @@ func Replay(r *fw.Run, raw json.RawMessage) {
 	r.Transitions.Add(1)
 	r.Execs.Add(1)
 	r.Sample(c)
+	if c.Kind == "empty-proof" {
+		if lg, err := tlogx.Build(tlogx.Pattern(0, 130)); err == nil {
+			emptyProofs(r, lg, 130)
+		}
+		return
+	}
 	if c.Kind == "aliasing" {
 		c09.Aliasing(r)
 		return
